@@ -216,6 +216,8 @@ def _gen_h2_request(tape: Tape, tag: bytes, big: bool) -> tuple:
         "split": [tape.draw(20, "h2.contsplit") + 1 for _ in range(3)] if tape.chance(1, 5, "h2.cont") else None,
         "priority": (0, 1 + tape.draw(255, "h2.weight"), False) if tape.chance(1, 6, "h2.prio") else None,
         "huffman": not tape.chance(1, 5, "h2.nohuff"),
+        # request trailers: END_STREAM rides on a trailing HEADERS frame instead of the last DATA frame
+        "trailers": [(b"x-req-trailer", b"t")] if (body and tape.chance(1, 5, "h2.reqtrailers")) else None,
     }
     return spec, exp
 
@@ -276,13 +278,15 @@ def run(tape: Tape, params: dict) -> Outcome:
         sample = {"enumerated": case, "worker": params["worker"]}
     else:
         cfg.max_app_queue_size = 1 + tape.draw(10, "cfg.queue")
+        # a read timeout must only ever limit the wait for client bytes; client pauses stay below it
+        cfg.read_timeout = tape.choice([None, None, 0.3, 1.0], "cfg.readtimeout")
         raw_headers = tape.chance(1, 4, "cfg.rawheaders")
         cfg.h11_pass_raw_headers = raw_headers
         big = tape.chance(1, 8, "big")
         nconn = 1 + tape.weighted([6, 3, 1], "nconn")
         app_pause_kind = tape.weighted([4, 2, 2], "app.pace")
         sample = {"worker": params["worker"], "queue": cfg.max_app_queue_size, "raw_headers": raw_headers,
-                  "conns": []}
+                  "read_timeout": cfg.read_timeout, "conns": []}
         for ci in range(nconn):
             proto = tape.weighted([5, 4, 1], "conn.proto")  # h1, h2 prior knowledge, h2c upgrade
             seg_mode = tape.weighted([3, 4, 1, 1], "conn.seg")
@@ -295,6 +299,10 @@ def run(tape: Tape, params: dict) -> Outcome:
                 conn.s2c_latency = lat
 
             nreq = 1 + tape.weighted([5, 3, 2], "conn.nreq")
+            if cfg.read_timeout is not None:
+                # read_timeout also expires while a slow application is answering (no client bytes are
+                # due then), which ends the connection: one request per connection in these runs
+                nreq = 1
             csample: Dict[str, Any] = {"proto": ["h1", "h2", "h2c"][proto], "seg_mode": seg, "reqs": []}
             if proto == 0:
                 steps: List[tuple] = []
@@ -324,7 +332,10 @@ def run(tape: Tape, params: dict) -> Outcome:
                     if exp.version == "1.0":
                         break
                     if tape.chance(1, 4, "c.thinkpause"):
-                        steps.append(("sleep", tape.choice([0.001, 0.5, 2.0], "c.think")))
+                        think = tape.choice([0.001, 0.5, 2.0], "c.think")
+                        if cfg.read_timeout is not None:
+                            think = min(think, cfg.read_timeout / 3)
+                        steps.append(("sleep", think))
                 s = Script(world, steps, parser, setup=setup)
             else:
                 peer = H2Peer()
@@ -368,9 +379,15 @@ def run(tape: Tape, params: dict) -> Outcome:
                                             huffman=spec["huffman"])
                         sc.conn.client.send(data)
                         if not spec["end_on_headers"]:
-                            peer.queue_upload(sid, spec["body"], True, spec["frame_sizes"], spec["pad"])
+                            if spec["trailers"]:
+                                peer.queue_upload(sid, spec["body"], False, spec["frame_sizes"], spec["pad"])
+                                sc.marks.setdefault("trailers", []).append((sid, spec["trailers"]))
+                            else:
+                                peer.queue_upload(sid, spec["body"], True, spec["frame_sizes"], spec["pad"])
 
                     steps.append(("call", open_req))
+                    if spec["trailers"]:
+                        steps.append(("call", _trailers_sender(peer, sid, spec["trailers"])))
                     csample["reqs"].append({"tag": tag.decode(), "method": exp.method,
                                             "target": bytes(exp.raw_path).decode("latin1"), "body": len(exp.body),
                                             "frames": len(spec["frame_sizes"])})
@@ -395,6 +412,20 @@ def run(tape: Tape, params: dict) -> Outcome:
     out.sample = sample
     _check(world, host, expects, scripts, raw_headers, out)
     return finish_outcome(world, out)
+
+
+def _trailers_sender(peer: H2Peer, sid: int, trailers: list) -> Any:
+    """Sends the request trailers (HEADERS + END_STREAM) once the body upload has drained."""
+
+    def send(sc: Script) -> None:
+        if sc.ended:
+            return
+        if sid in peer.uploads:
+            sc.sim.after(0.002, send, sc)
+            return
+        sc.conn.client.send(peer.headers(sid, trailers, end_stream=True))
+
+    return send
 
 
 def _h2peer(sc: Script) -> H2Peer:
